@@ -1,29 +1,44 @@
 --------------------------- MODULE LocalWakerSpec ---------------------------
 (* local_waker::LocalWaker - second half of property C17.                                          *)
+(* Wakers may be RE-ENTRANT: the destructor of such a waker calls wake() on the same LocalWaker   *)
+(* (a parked task that owns a guard of the gate it is parked on: dropping its waker drops the      *)
+(* task, releases the guard, and the release wakes whoever is registered).  `register` stores the  *)
+(* new waker BEFORE it drops the displaced one, so that wake-up reaches the waker being registered. *)
 EXTENDS Naturals, Sequences, TLC, Json
 CONSTANTS NWakers, MaxDepth,
           WakeKeeps,      \* design FALSE: wake() consumes the registration (wakes once)
-          RegisterFlagInverted  \* design FALSE
-VARIABLES reg, depth, act
-vars == <<reg, depth, act>>
-View == <<reg, depth>>
-NoAct == [op |-> "init", w |-> 0, res |-> "", val |-> 0, wokenset |-> <<>>]
+          RegisterFlagInverted,  \* design FALSE
+          DropOldBeforeStore     \* design FALSE: the displaced waker is dropped while the slot is empty
+VARIABLES reg, re, depth, act
+vars == <<reg, re, depth, act>>
+View == <<reg, re, depth>>
+NoAct == [op |-> "init", w |-> 0, re |-> FALSE, res |-> "", val |-> 0, wokenset |-> <<>>]
 Bounded == MaxDepth = 0 \/ depth < MaxDepth
-Init == reg = 0 /\ depth = 0 /\ act = NoAct
-Register(w) == /\ Bounded /\ reg' = w /\ depth' = depth + 1
-               /\ act' = [NoAct EXCEPT !.op = "register", !.w = w,
-                            !.res = (IF (reg # 0) # RegisterFlagInverted THEN "true" ELSE "false")]
-Wake == /\ Bounded /\ reg' = (IF WakeKeeps THEN reg ELSE 0) /\ depth' = depth + 1
+Init == reg = 0 /\ re = FALSE /\ depth = 0 /\ act = NoAct
+\* the displaced waker (if re-entrant) wakes from its destructor: in the design the new waker is already in the slot
+Register(w, r) ==
+  /\ Bounded /\ depth' = depth + 1
+  /\ LET hit == reg # 0 /\ re /\ ~DropOldBeforeStore IN
+       /\ reg' = (IF hit /\ ~WakeKeeps THEN 0 ELSE w)
+       /\ re' = (IF hit /\ ~WakeKeeps THEN FALSE ELSE r)
+       /\ act' = [NoAct EXCEPT !.op = "register", !.w = w, !.re = r,
+                    !.res = (IF (reg # 0) # RegisterFlagInverted THEN "true" ELSE "false"),
+                    !.wokenset = (IF hit THEN <<w>> ELSE <<>>)]
+\* (the woken waker is consumed; if IT is re-entrant its destructor finds the slot empty)
+Wake == /\ Bounded /\ reg' = (IF WakeKeeps THEN reg ELSE 0) /\ re' = (IF WakeKeeps THEN re ELSE FALSE) /\ depth' = depth + 1
         /\ act' = [NoAct EXCEPT !.op = "wake", !.wokenset = (IF reg = 0 THEN <<>> ELSE <<reg>>)]
-Take == /\ Bounded /\ reg' = 0 /\ depth' = depth + 1
+Take == /\ Bounded /\ reg' = 0 /\ re' = FALSE /\ depth' = depth + 1
         /\ act' = [NoAct EXCEPT !.op = "take", !.res = (IF reg = 0 THEN "none" ELSE "some"), !.val = reg]
-Next == Wake \/ Take \/ \E w \in 1..NWakers : Register(w)
+Next == Wake \/ Take \/ \E w \in 1..NWakers, r \in BOOLEAN : Register(w, r)
 Spec == Init /\ [][Next]_vars
 \* register reports whether a waker was already registered; wake wakes exactly the registered waker
 C17_RegisterReportsStep == act'.op = "register" => ((act'.res = "true") <=> (reg # 0))
 C17_WakeLastOnceStep == act'.op = "wake" => (act'.wokenset = (IF reg = 0 THEN <<>> ELSE <<reg>>) /\ reg' = 0)
 C17_TakeStep == act'.op = "take" => (act'.val = reg /\ reg' = 0)
-C17_LWSteps == [][C17_RegisterReportsStep /\ C17_WakeLastOnceStep /\ C17_TakeStep]_vars
+\* a wake-up issued while a waker is being registered (from the displaced waker's destructor) wakes THAT waker:
+\* the most recently registered one - it is not lost
+C17_WakeDuringRegisterStep == (act'.op = "register" /\ reg # 0 /\ re) => act'.wokenset = <<act'.w>>
+C17_LWSteps == [][C17_RegisterReportsStep /\ C17_WakeLastOnceStep /\ C17_TakeStep /\ C17_WakeDuringRegisterStep]_vars
 LogEdge == PrintT(<<"EDGE", ToJson([from |-> View, act |-> act', to |-> View'])>>)
 LogInit == TLCGet("level") > 1 \/ PrintT(<<"INIT", ToJson([from |-> View])>>)
 =============================================================================
